@@ -352,4 +352,170 @@ theorem tiffRows_total (bpc colors rl : Nat) :
     simp only [hr]
     exact ih _ _
 
+/-! ### The converse direction (PNG): the decoder's output re-encodes to its input -/
+
+theorem getD_append_left' (l t : Bytes) (i : Nat) (h : i < l.length) : (l ++ t).getD i 0 = l.getD i 0 := by
+  simp [List.getD, List.getElem?_append_left h]
+
+theorem getD_append_at (l t : Bytes) (x : UInt8) : (l ++ x :: t).getD l.length 0 = x := by
+  simp [List.getD]
+
+/-- Invariant of the PNG row loop on ARBITRARY input: the result extends `acc` by one byte per input
+    byte, each being the input byte plus the predictor of the already reconstructed neighbours. -/
+theorem pngRowLoop_inv (predictor bpp : Nat) (hb : 1 ≤ bpp) (pm : Bytes) :
+    ∀ (rest : Bytes) (k : Nat) (acc r : Bytes), acc.length = k →
+      Pred.pngRowLoop predictor bpp pm rest k acc = .ok r →
+      ∃ tail, r = acc ++ tail ∧ tail.length = rest.length ∧
+        ∀ j, (hj : j < rest.length) →
+          r.getD (k + j) 0 = rest[j] + Pred.predByte predictor
+            (if k + j < bpp then 0 else r.getD (k + j - bpp) 0) (pm.getD (k + j) 0)
+            (if k + j < bpp then 0 else pm.getD (k + j - bpp) 0) := by
+  intro rest
+  induction rest with
+  | nil =>
+    intro k acc r _ h
+    simp only [Pred.pngRowLoop] at h
+    cases h
+    exact ⟨[], by simp, rfl, fun j hj => absurd hj (by simp)⟩
+  | cons x t ih =>
+    intro k acc r hacc h
+    unfold Pred.pngRowLoop at h
+    have hb0 : ¬ bpp = 0 := by omega
+    by_cases hkb : k ≥ bpp
+    · simp only [hkb, if_true, hb0, if_false] at h
+      cases ha : acc[k - bpp]? with
+      | none => simp [ha] at h
+      | some a =>
+        cases hc : pm[k - bpp]? with
+        | none => simp [ha, hc] at h
+        | some c =>
+          cases hbv : pm[k]? with
+          | none => simp [ha, hc, hbv] at h
+          | some b =>
+            simp only [ha, hc, hbv] at h
+            obtain ⟨tail, hr, hlen, hall⟩ := ih (k + 1) _ r (by simp [hacc]) h
+            refine ⟨(x + Pred.predByte predictor a b c) :: tail, by simp [hr], by simp [hlen], ?_⟩
+            intro j hj
+            cases j with
+            | zero =>
+              have hnl : ¬ k < bpp := by omega
+              have h1 : k - bpp < acc.length := by omega
+              simp only [Nat.add_zero, hnl, if_false, List.getElem_cons_zero]
+              rw [hr]
+              have e1 : (acc ++ [x + Pred.predByte predictor a b c] ++ tail).getD k 0 = x + Pred.predByte predictor a b c := by
+                rw [List.append_assoc, ← hacc]; exact getD_append_at _ _ _
+              have e2 : (acc ++ [x + Pred.predByte predictor a b c] ++ tail).getD (k - bpp) 0 = a := by
+                rw [List.append_assoc, getD_append_left' _ _ _ h1]
+                simp [List.getD, ha]
+              have e3 : pm.getD k 0 = b := by simp [List.getD, hbv]
+              have e4 : pm.getD (k - bpp) 0 = c := by simp [List.getD, hc]
+              rw [e1, e2, e3, e4]
+            | succ j =>
+              have := hall j (by simpa using hj)
+              simp only [List.getElem_cons_succ]
+              have e : k + (j + 1) = k + 1 + j := by omega
+              rw [e]; exact this
+    · simp only [hkb, if_false] at h
+      cases hbv : pm[k]? with
+      | none => simp [hbv] at h
+      | some b =>
+        simp only [hbv] at h
+        obtain ⟨tail, hr, hlen, hall⟩ := ih (k + 1) _ r (by simp [hacc]) h
+        refine ⟨(x + Pred.predByte predictor 0 b 0) :: tail, by simp [hr], by simp [hlen], ?_⟩
+        intro j hj
+        cases j with
+        | zero =>
+          have hnl : k < bpp := by omega
+          simp only [Nat.add_zero, hnl, if_true, List.getElem_cons_zero]
+          rw [hr]
+          have e1 : (acc ++ [x + Pred.predByte predictor 0 b 0] ++ tail).getD k 0 = x + Pred.predByte predictor 0 b 0 := by
+            rw [List.append_assoc, ← hacc]; exact getD_append_at _ _ _
+          have e3 : pm.getD k 0 = b := by simp [List.getD, hbv]
+          rw [e1, e3]
+        | succ j =>
+          have := hall j (by simpa using hj)
+          simp only [List.getElem_cons_succ]
+          have e : k + (j + 1) = k + 1 + j := by omega
+          rw [e]; exact this
+
+
+/-- Converse of `pngRowLoop_spec`: whatever bytes the loop is given, the forward filter of the
+    row it reconstructs is exactly those bytes. -/
+theorem pngRowLoop_reencodes (predictor bpp : Nat) (hp : 10 ≤ predictor ∧ predictor ≤ 14) (hb : 1 ≤ bpp)
+    (pm ps enc r : Bytes) (hprev : ∀ i, i < enc.length → pm[i]? = some (ps.getD i 0))
+    (h : Pred.pngRowLoop predictor bpp pm enc 0 [] = .ok r) :
+    r.length = enc.length ∧ PredSpec.pngFilterRow (predictor - 10) bpp ps r = enc := by
+  obtain ⟨tail, hr, hlen, hall⟩ := pngRowLoop_inv predictor bpp hb pm enc 0 [] r rfl h
+  have hrl : r.length = enc.length := by rw [hr]; simpa using hlen
+  refine ⟨hrl, ?_⟩
+  apply List.ext_getElem
+  · rw [filterRow_length]; exact hrl
+  · intro j h1 h2
+    have hj : j < r.length := by rw [filterRow_length] at h1; exact h1
+    rw [filterRow_getElem _ _ _ _ _ hj]
+    have hpm : ∀ i, i < enc.length → pm.getD i 0 = ps.getD i 0 := by
+      intro i hi; simp [List.getD, hprev i hi]
+    have := hall j h2
+    simp only [Nat.zero_add] at this
+    rw [this, predByte_eq predictor hp, hpm j h2]
+    unfold PredSpec.leftOf
+    by_cases hjb : j < bpp
+    · simp only [hjb, if_true, UInt8.add_sub_cancel]
+    · simp only [hjb, if_false, hpm (j - bpp) (by omega), UInt8.add_sub_cancel]
+
+/-- Converse of `pngRows_spec`: if the row loop over `cnt` chunks of ANY data succeeds, its output is
+    a list of rows whose PNG encoding (forward filters of the specification) is that data. -/
+theorem pngRows_reencodes (predictor bpp n : Nat) (hp : 10 ≤ predictor ∧ predictor ≤ 14) (hb : 1 ≤ bpp) :
+    ∀ (cnt : Nat) (data pm ps out res : Bytes), data.length = cnt * (n + 1) →
+      (∀ i, i < n → pm[i]? = some (ps.getD i 0)) →
+      Pred.pngRows predictor bpp (n + 1) cnt data pm out = .ok res →
+      ∃ rows : List Bytes, res = out ++ rows.flatten ∧ rows.length = cnt ∧ (∀ r ∈ rows, r.length = n) ∧
+        PredSpec.pngRows (predictor - 10) bpp ps rows = data := by
+  intro cnt
+  induction cnt with
+  | zero =>
+    intro data pm ps out res hd _ h
+    simp only [Pred.pngRows] at h
+    cases h
+    have : data = [] := List.length_eq_zero_iff.mp (by simpa using hd)
+    exact ⟨[], by simp, rfl, by simp, by simp [PredSpec.pngRows, this]⟩
+  | succ cnt ih =>
+    intro data pm ps out res hd hprev h
+    rw [Nat.succ_mul] at hd
+    unfold Pred.pngRows at h
+    have htl : (data.take (n + 1)).length = n + 1 := by rw [List.length_take]; omega
+    cases htake : data.take (n + 1) with
+    | nil => rw [htake] at htl; simp at htl
+    | cons tag enc =>
+      rw [htake] at htl h
+      simp only [List.length_cons] at htl
+      have hel : enc.length = n := by omega
+      simp only at h
+      by_cases h15 : predictor = 15
+      · omega
+      · by_cases htag : tag.toNat ≠ predictor - 10
+        · simp [h15, htag] at h
+        · simp only [h15, htag, if_false] at h
+          cases hloop : Pred.pngRowLoop predictor bpp pm enc 0 [] with
+          | err e => simp [hloop] at h
+          | panic s => simp [hloop] at h
+          | ok row =>
+            simp only [hloop] at h
+            obtain ⟨hrl, hre⟩ := pngRowLoop_reencodes predictor bpp hp hb pm ps enc row
+              (by rw [hel]; exact hprev) hloop
+            obtain ⟨rows, hres, hcnt, hlens, henc⟩ := ih (data.drop (n + 1)) row row (out ++ row) res
+              (by rw [List.length_drop]; omega)
+              (fun i hi => getElem?_getD row i (by omega)) h
+            refine ⟨row :: rows, by simp [hres, List.append_assoc], by simp [hcnt], ?_, ?_⟩
+            · intro r hr
+              rcases List.mem_cons.mp hr with rfl | hr
+              · omega
+              · exact hlens r hr
+            · have htag' : tag = UInt8.ofNat (predictor - 10) := by
+                have : tag.toNat = predictor - 10 := by omega
+                rw [← this, UInt8.ofNat_toNat]
+              simp only [PredSpec.pngRows, hre, henc, ← htag']
+              rw [← List.cons_append, ← htake, List.take_append_drop]
+
+
 end Parsley.C07
